@@ -461,6 +461,10 @@ def _map_index(eng, st, fr, t, args, dest, target):
     return mk_ref(r, p + (('key', k),))
 
 
+def symbolic_key(k):
+    return isinstance(k, tuple) and k and k[0] not in ('enum', 'c')
+
+
 def map_origin(m):
     if m[0] == 'map':
         return m[1] if m[1] is not None else 'concrete'
@@ -2060,3 +2064,45 @@ def _try_into(eng, st, fr, t, args, dest, target):
                 eng.push_call(st, b, [args[0]], dest, target, None, None)
                 return DEFER
     return _opaque(eng, st, t, args)
+
+
+@model('std::option::Option::<T>::take', 'core::option::Option::<T>::take')
+def _opt_take(eng, st, fr, t, args, dest, target):
+    r, p = ptr_of(eng, st, args[0])
+    v = eng.load(st, r, p)
+    eng.store(st, r, p, NONE)
+    return v
+
+
+@model('std::iter::Iterator::peekable')
+def _peekable(eng, st, fr, t, args, dest, target):
+    # a Peekable walks the same elements as the iterator it wraps
+    return args[0]
+
+
+@model('std::iter::Peekable::<I>::peek', 'std::iter::Peekable::<I>::peek_mut')
+def _peek(eng, st, fr, t, args, dest, target):
+    # whether another element follows: a condition of its own per loop iteration (it does not consume anything)
+    it = eng.purify(st, eng.deref_arg(st, args[0]))
+    lid = eng.enclosing_loop(fr)
+    return ite(('iterhas', lid, ('peek', it)), SOME(('iterval', lid, ('peek', it))), NONE)
+
+
+# integer helpers on constants (otherwise uninterpreted: the formula comparator reads them as atoms)
+def _int_fold(f):
+    def m(eng, st, fr, t, args, dest, target):
+        vs = [eng.force(st, a) for a in args]
+        if all(is_const(v) and isinstance(cval(v), int) and not isinstance(cval(v), bool) for v in vs):
+            try:
+                return C(vs[0][1], f(*[cval(v) for v in vs]))
+            except ZeroDivisionError:
+                raise PathEnd('panic', ('division-by-zero', fr.body.path, t.get('span')))
+        return _opaque(eng, st, t, args)
+    return m
+
+
+for _w in ('i32', 'i64', 'isize', 'i16', 'i8'):
+    for _pre in ('core::num::<impl %s>::' % _w, 'std::num::<impl %s>::' % _w):
+        MODELS[_pre + 'rem_euclid'] = _int_fold(lambda a, b: a - abs(b) * (a // abs(b)))
+        MODELS[_pre + 'div_euclid'] = _int_fold(lambda a, b: (a // b) if b > 0 else -(a // -b))
+        MODELS[_pre + 'abs'] = _int_fold(lambda a: abs(a))
